@@ -1,6 +1,6 @@
 #!/bin/bash
-# usage: confirm_seeded.sh <pid> <A|B>   -- confirms a seeded defect in a scratch worktree and stores it under /verif/seeded
-pid=$1; x=$2; src=/tmp/mut/${pid}_out; wt=/tmp/confirm/${pid}$x
+# usage: confirm_seeded.sh <pid> <A|B|C..> [srcdir]   -- confirms a seeded defect in a scratch worktree and stores it under /verif/seeded
+pid=$1; x=$2; src=${3:-/tmp/mut/${pid}_out}; wt=/tmp/confirm/${pid}$x
 mkdir -p /tmp/confirm; git -C /repo worktree add -q --detach $wt HEAD || exit 3
 res="$pid$x:"
 (cd $wt && PYTHONPATH=$wt timeout 600 /venv/bin/python $src/demo$x.py > /tmp/confirm/${pid}$x.clean.log 2>&1); c=$?
